@@ -119,7 +119,7 @@ def run(chk):
             chk.violation(r_const, name, "%s = %s; the Eclipse file format fixes it at %s" % (name, got, val), v["file"], v["l"])
     for name, v in consts.items():
         if name not in want:
-            chk.violation(r_const, "unlisted:" + name, "constant %s is not in tables/ecl_layout.json (confirm and add it)" % name, v["file"], v["l"])
+            chk.fail_broken("C07.const: " + "constant %s is not in tables/ecl_layout.json (confirm and add it)" % name)
 
     # ---- C07.blocks
     r_blk = chk.rule("C07.blocks", "block_size_data_binary/formatted return, for every array type, that type's own constants; CHAR and C0NN share; MESS has no data", floor=14)
